@@ -577,6 +577,10 @@ impl Prop for Statics {
             rec.class("several-preferred");
         }
         rec.class(&format!("n={:02}", cx.g.n));
+        let (_scope, chosen) = satwrap::ChoiceScope::for_case(case);
+        if chosen {
+            rec.class("sat-backend-returns-chosen-models");
+        }
         let built = build(case);
         match built {
             Built::U(af, labels) => self.run_generic(&af, &labels, &cx, rec),
